@@ -306,6 +306,8 @@ class TransportDescriptorParser:
                         if v not in ("True", "False"):
                             raise ValueError()
                         parameters[k] = (v == "True")
+                    elif ty is str:
+                        parameters[k] = self._unescape(v)
                     else:
                         parameters[k] = ty(v)
                 except ValueError:
@@ -324,6 +326,16 @@ class TransportDescriptorParser:
     @staticmethod
     def _is_keyword_param(param):
         return '=' in param
+
+    @staticmethod
+    def _escape(value: str) -> str:
+        """Escape the characters of a string value that would end a descriptor part: ':' as '%3A' (and '%' as '%25')."""
+        return value.replace("%", "%25").replace(":", "%3A")
+
+    @staticmethod
+    def _unescape(value: str) -> str:
+        """Reverse of _escape(), applied to the string values of keyword parameters."""
+        return re.sub("%(3A|25)", lambda m: ":" if m.group(1) == "3A" else "%", value)
 
 
 SerialTransportDescriptorParser = TransportDescriptorParser(
@@ -1105,7 +1117,7 @@ class QMI_UsbTmcTransport(QMI_Transport):
                 try:
                     vendorid = int(parts[1], 0)
                     productid = int(parts[2], 0)
-                    serialnr = parts[3]
+                    serialnr = TransportDescriptorParser._escape(parts[3])
                     transports.add("usbtmc:vendorid=0x{:04x}:productid=0x{:04x}:serialnr={}"
                                    .format(vendorid, productid, serialnr))
                 except ValueError:
@@ -1351,7 +1363,7 @@ def create_transport(
     USBTMC:
       - "vendorid" is the USB Vendor ID as a decimal number or as hexadecimal with 0x prefix.
       - "productid" is the USB Product ID as a decimal number or as hexadecimal with 0x prefix.
-      - "serialnr" is the USB serial number string.
+      - "serialnr" is the USB serial number string. A ":" in it is written as "%3A" and a "%" as "%25".
 
     GPIB:
       - "primary_addr" is GPIB device number (integer).
